@@ -464,7 +464,11 @@ func runPath(cfg config, path []op) (key, msg string, finalCanon string) {
 			}()
 		} else {
 			for id, v := range cfg.Initial {
-				ref.items[id] = v
+				rid := id
+				if cfg.Lower {
+					rid = strings.ToLower(id) // an initial record is an item like any other: reachable under its intercepted id
+				}
+				ref.items[rid] = v
 				opts = append(opts, resource.WithInitialRecord(id, v.msg()))
 			}
 			col = resource.NewCollection(opts...)
@@ -737,8 +741,15 @@ func configs() []config {
 		{Name: "collection/all-generated-ids-taken", Initial: all},
 		// the id interceptor and id generation together: the first candidate is taken - under the
 		// intercepted (lower-case) form only
+		{Name: "collection/lower-case-ids/initial-record-upper-case", Lower: true, Initial: map[string]val{"A": {3, "init"}}},
 		{Name: "collection/lower-case-ids/first-generated-id-taken", Lower: true, Initial: map[string]val{strings.ToLower(first): {5, "taken"}}},
 	}
+}
+
+// plain: an operation with no option beyond what its kind implies
+func plain(o op) bool {
+	b := wopts{Mask: "nil"}
+	return o.O.String() == b.String() || o.Kind == "get" || o.Kind == "list"
 }
 
 func bfs(s *hx.Seq, cfg config, depth int, fullProduct bool) {
@@ -768,6 +779,9 @@ func bfs(s *hx.Seq, cfg config, depth int, fullProduct bool) {
 				}
 				if !own && o.Kind != "get" && o.Kind != "list" {
 					// successors must be known to every shard; only checking is dealt out
+					if fullProduct && !plain(o) {
+						continue // with the full option product only plainly reached states are expanded (below)
+					}
 					k, _, c := runPath(cfg, path)
 					if k == "" && !seen[c] {
 						seen[c] = true
@@ -791,6 +805,12 @@ func bfs(s *hx.Seq, cfg config, depth int, fullProduct bool) {
 					continue
 				}
 				s.Distinct(cfg.Name + c + o.O.String())
+				if fullProduct && !plain(o) {
+					// the full product of options (thousands per operation) is applied FROM every state that a
+					// plain operation reaches; states reached only through option combinations are checked, not expanded
+					s.State(cfg.Name + c)
+					continue
+				}
 				if !seen[c] {
 					seen[c] = true
 					s.State(cfg.Name + c)
